@@ -34,7 +34,7 @@ def run(chk, tier):
               "chrono 0.4 range preconditions of TimeDelta constructors and NaiveDate + TimeDelta (rules/tables/lib.py)"):
         chk.trust(a)
     chk.assume("volume::Header::date_time narrows its 32-bit date with `as u16`: the identity on the property's domain d in 1..=65535")
-    ev = sym.Evaluator(prog, models=cm.MODELS)
+    ev = cm.evaluator(prog)
 
     # the two copies, with symbolic (mjd, duration) parameters
     copies = {}
@@ -44,16 +44,23 @@ def run(chk, tier):
             chk.blind("VN", c, "get_datetime copy not found")
             continue
         mjd_ty = fn.locals[1]["ty"]["s"]
+        t_ty = fn.locals[2]["ty"]["s"] if fn.arg_count >= 2 else "?"
         mjd, dur = P("mjd"), P("dur")
         got, _ = eval_or_blind(chk, ev, "VN", c, [mjd, dur])
         if got is None:
             continue
-        want = some(("instant", ("date", cast(mjd, mjd_ty, "i64"), cm.EPOCH - 1), ("time", 0, dur)))
+        # the time-of-day parameter is a TimeDelta, or a raw unsigned millisecond count
+        tod = dur if t_ty not in sym.INT_TYS else ("dur", 1, cast(dur, t_ty, "i64"))
+        if t_ty in sym.INT_TYS:
+            chk.ob("VN", c, sym.ty_range(t_ty)[0] == 0, "raw time-of-day parameter is unsigned (%s)" % t_ty, fn.where(), key="time-type")
+        want = some(("instant", ("date", cm.canon_base(cast(mjd, mjd_ty, "i64")), cm.EPOCH - 1), ("time", 0, tod)))
         chk.ob("VN", c, mjd_ty == "u16", "day-count parameter is %s (the ICD field is a 16-bit modified Julian date)" % mjd_ty, fn.where(), key="mjd-type")
         expect(chk, "VN", c, got, want, fn.where(), "closed form 1970-01-01 + (d-1) days + t")
-        copies[c] = sym.rebuild(got, {cast(mjd, mjd_ty, "i64"): P("D")})
-    if len(copies) == 2:
-        a, b = [copies[c] for c in COPIES]
+        copies[c] = (t_ty, sym.rebuild(got, {cast(mjd, mjd_ty, "i64"): P("D")}))
+    if len(copies) == 2 and len({v[0] for v in copies.values()}) == 2:
+        chk.notes["get_datetime copies"] = "the two copies take their time of day in different types; each is held to the closed form on its own"
+    elif len(copies) == 2:
+        a, b = [copies[c][1] for c in COPIES]
         expect(chk, "R-SIB", "get_datetime(decode)~get_datetime(data)", a, b, None, "the two get_datetime copies agree")
 
     # the accessors
